@@ -335,6 +335,12 @@ func buildReplayDesc(kc *kernelCtx, b *Block) *ReplayDesc {
 				d.Interp = false
 				continue
 			}
+			if regexp.MustCompile(`(^|[^A-Za-z0-9_])_([^A-Za-z0-9_]|$)`).MatchString(em) {
+				// a wildcard (a clock reading, an opaque field): the script harness cannot predict the value
+				d.Interp = false
+				d.Why = "emits pattern " + em + " leaves a value unspecified"
+				continue
+			}
 			call, ok := ex.(*ast.CallExpr)
 			if !ok {
 				d.Interp = false
